@@ -2,7 +2,7 @@
 import itertools
 import random
 
-from harness import common, core, vers
+from harness import common, core, dense, vers
 
 
 def run(ctx):
@@ -172,12 +172,15 @@ def run(ctx):
                     want = "OK true" if p in lst else "OK false"
                     if a != want:
                         viol(f"{s.name}: {v.string!r} in from_versions({strs}) -> {a}, expected {want}", inputs=dict(scheme=s.name, versions=strs, version=v.string))
+    # ---- the same statement on dense families of versions (one edit apart, equal under another spelling): harness/dense.py
+    dense_ev, dense_per = dense.run(ctx, "C10", r, lambda what, **kw: violations.append(dict(kind="counterexample", stage="search", what=what, **kw)))
+    evals += dense_ev
     if not violations and (diffs or not proofs["ok"]):
         what = ("theorems of Props/C10.v no longer check: " + str(proofs.get("error"))[-400:]) if not proofs["ok"] else \
             ("model and implementation differ: " + str(diffs[0]))
         violations.append(dict(kind="no-failing-input-found", stage="proof" if not proofs["ok"] else "correspondence",
                                theorem_or_stream="Props/C10.v" if not proofs["ok"] else "VersionRange.normalize vs Model.normalize", what=what, diffs=diffs[:10]))
-    cov = dict(evaluations=evals, distinct_nontrivial=len(nontrivial),
+    cov = dict(evaluations=evals, dense_pairs=dense_per, distinct_nontrivial=len(nontrivial),
                rule=f"every well-formed comparator pattern n<={N} (decided by the Coq spec, plus '*', the empty range and random longer ones) x universes = subsets of the "
                     "grid of positions at/between/around the bounds (all subsets for short patterns, sampled in the quick tier), shuffled, with duplicates and with "
                     "alternative spellings of equal versions; all five clauses of the property evaluated on the implementation, and normalize() compared with the model; "
